@@ -412,9 +412,9 @@ def check(rep: Report, tier: str, seed: int) -> None:
     q = tier == "quick"
     corr_noise(rep, rng, 300 if q else 5000, drv)
     corr_choices(rep, rng, 1500 if q else 50000, drv)
-    jump_tape(rep, rng, 8 if q else 300, drv)
+    jump_tape(rep, rng, 8 if q else 200, drv)
     drift_oracle(rep, rng, 2 if q else 60)
-    average_oracle(rep, rng, 12 if q else 600, 3 if q else 10)
+    average_oracle(rep, rng, 12 if q else 240, 3 if q else 8)
     if rep.broken and not rep.failing:
         # deeper search on the real code only
         jump_tape(rep, rng, 60 if q else 600, drv)
